@@ -43,6 +43,7 @@ def _case(draw, tier):
     return {"desc": desc, "backend": draw(st.sampled_from(["slurm", "slurm", "sge", "lsf"])), "state": state,
             "older": older, "patterns": pats, "force": draw(st.booleans()),
             "answer": draw(st.sampled_from(["y\n", "y\n", "n\n", "\n"])),
+            "outputs_exist": draw(st.booleans()),
             "fault_pos": draw(st.integers(0, 7)), "fault_kind": draw(st.sampled_from(["exit1", "stderr-error"]))}
 
 
@@ -88,7 +89,7 @@ def run_case(case):
         if submit_twice:
             r = proj.gwf(["run", *submit_twice])
             if r.code != 0:
-                raise hist.HarnessError("setup run failed: " + r.brief())
+                raise hist.SubjectFailure("setup run failed: " + r.brief())
             for j in list(sim.submissions()):
                 # the older generation fails, so the next run submits these targets again
                 j.state = simsched.FAILED
@@ -98,7 +99,7 @@ def run_case(case):
         if wanted:
             r = proj.gwf(["run", *wanted])
             if r.code != 0:
-                raise hist.HarnessError("setup run failed: " + r.brief())
+                raise hist.SubjectFailure("setup run failed: " + r.brief())
         latest = {}
         for n in names:
             j = sim.latest(n)
@@ -181,6 +182,17 @@ def run_case(case):
                 if table.get(n) in ("submitted", "running"):
                     viols.append(Violation({"kind": "still-in-flight-after-cancel", "backend": flavour},
                                            f"{n} shows {table.get(n)} after its job {latest[n].id} was cancelled"))
+            # a cancelled job may have written its outputs already: fresh outputs must not hide the cancellation
+            if case.get("outputs_exist") and flavour != "sge":
+                for n in ok_cancelled:
+                    proj.produce(n)
+                labels.add("outputs-exist-after-cancel")
+                r2b = proj.gwf(["status"])
+                for n in ok_cancelled:
+                    shown_ = r2b.status_rows().get(n)
+                    if shown_ not in ("cancelled", "failed"):
+                        viols.append(Violation({"kind": "cancellation-forgotten", "backend": flavour},
+                                               f"{n}: its latest job {latest[n].id} was cancelled, its outputs exist; status shows {shown_!r}"))
             before = len(sim.submissions())
             r3 = proj.gwf(["run", *ok_cancelled]) if ok_cancelled else None
             if r3 is not None:
